@@ -45,7 +45,12 @@ Esc(t, q) == IF t = <<>> THEN <<>>
 
 Has(t, c) == \E i \in 1..Len(t) : t[i] = c
 \* which strings a style can carry
-TripleOK(t, c) == /\ ~Has(t, BS) /\ ~Has(t, NL)                          \* verbatim: nothing to escape, one line
+\* A triple-quoted text may span several lines: in an INI file the lines after the first are continuation lines
+\* (written indented, see Indent); configparser strips each line, drops comment lines and the text must stay verbatim:
+LinesOK(t) == \A i \in 1..Len(t) : t[i] = NL =>
+                 /\ (i < Len(t) => t[i + 1] \notin {" ", "#", NL})          \* next line: no leading blank, no comment, not empty
+                 /\ (i > 1 => t[i - 1] # " ")                               \* this line: no trailing blank
+TripleOK(t, c) == /\ ~Has(t, BS) /\ LinesOK(t)                            \* verbatim: nothing to escape
                    /\ (t = <<>> \/ t[Len(t)] # c)                          \* would merge with the closing quotes
                    /\ ~\E i \in 1..(Len(t) - 2) : t[i] = c /\ t[i + 1] = c /\ t[i + 2] = c
 Applicable(t, style) ==
@@ -58,9 +63,15 @@ Applicable(t, style) ==
                                  /\ ~(Len(t) >= 2 /\ t[1] = t[Len(t)] /\ t[1] \in {SQ, DQ})   \* would be a quoted form
     [] OTHER -> TRUE
 
+RECURSIVE Indent(_)
+Indent(t) == IF t = <<>> THEN <<>>
+             ELSE (IF Head(t) = NL THEN <<NL, " ", " ", " ", " ">> ELSE <<Head(t)>>) \o Indent(Tail(t))
+RECURSIVE Dedent(_)
+Dedent(w) == IF w = <<>> THEN <<>>
+             ELSE IF Head(w) = NL THEN <<NL>> \o Dedent(SubSeq(w, 6, Len(w))) ELSE <<Head(w)>> \o Dedent(Tail(w))
 Encode(t, style) ==
-  CASE style.q = "tsingle" -> <<SQ, SQ, SQ>> \o t \o <<SQ, SQ, SQ>>          \* Python literal '''...''', verbatim
-    [] style.q = "tdouble" -> <<DQ, DQ, DQ>> \o t \o <<DQ, DQ, DQ>>          \* Python literal """...""", verbatim
+  CASE style.q = "tsingle" -> <<SQ, SQ, SQ>> \o Indent(t) \o <<SQ, SQ, SQ>>          \* Python literal '''...''', verbatim
+    [] style.q = "tdouble" -> <<DQ, DQ, DQ>> \o Indent(t) \o <<DQ, DQ, DQ>>          \* Python literal """...""", verbatim
     [] style.q = "single"  -> <<SQ>> \o Esc(t, SQ) \o <<SQ>>                \* Python literal '...'
     [] style.q = "double"  -> <<DQ>> \o Esc(t, DQ) \o <<DQ>>                \* Python literal "..."
     [] style.q = "basic"   -> <<DQ>> \o Esc(t, DQ) \o <<DQ>>                \* TOML basic string
@@ -76,7 +87,7 @@ Unesc(w) == IF w = <<>> THEN <<>>
 Decode(w, style) ==
   CASE style.q \in {"single", "double", "basic"} -> Unesc(SubSeq(w, 2, Len(w) - 1))
     [] style.q = "literal" -> SubSeq(w, 2, Len(w) - 1)
-    [] style.q \in {"tsingle", "tdouble"} -> SubSeq(w, 4, Len(w) - 3)
+    [] style.q \in {"tsingle", "tdouble"} -> Dedent(SubSeq(w, 4, Len(w) - 3))
     [] style.q = "plain" -> w
 
 File == JsonDeserialize(IOEnv.TABLE_FILE)
@@ -95,7 +106,8 @@ Spec == Init /\ [][Next]_vars
 \* Known findings (findings.d/C20.json).
 \* ini-file-read-as-toml: the composite parser tries TOML first, so a pydoctor.ini whose text happens to be valid
 \* TOML is read with TOML's rules (no escapes in '...', `x # y` is a comment, [..] a list), not the INI/Python ones.
-KF_IniReadAsToml(r) == r.fmt = "ini" /\ r.tv /\ r.q \in {"single", "plain"} /\ (r.err # "" \/ r.back # r.s)
+KF_IniReadAsToml(r) == /\ r.fmt = "ini" /\ r.tv /\ (r.err # "" \/ r.back # r.s)
+                       /\ (r.q \in {"single", "plain"} \/ (r.q \in {"tsingle", "tdouble"} /\ Has(r.s, NL)))  \* TOML keeps the indentation
 \* toml-leading-escaped-quote: the `toml` package reads "\"" back as the empty string and "\"\"..." without its
 \* first two and last two characters.
 KF_TomlLeadingQuote(r) == /\ r.tv /\ r.q \in {"basic", "double"} /\ r.err = ""
